@@ -12,6 +12,7 @@ import (
 	"sort"
 	"strings"
 	"sync/atomic"
+	"syscall"
 	"testing"
 	"time"
 
@@ -52,8 +53,9 @@ func noteHang() { atomic.StoreInt32(&hangSeen, 1) }
 // hangProbe decides, after a client has waited out its (two minute) timeout,
 // whether the server is hanging or the machine is merely slow: five fresh
 // connections must each be answered (no-op) within two seconds, and the victim
-// connection must still be silent ten seconds after that.  Only then is the
-// missing reply called a hang.
+// connection must still be silent ten seconds after that, during which the
+// process must have been idle (less than one second of CPU time: a slow
+// request keeps it busy).  Only then is the missing reply called a hang.
 func hangProbe(st *stack.Stack, victim *wire.Client) bool {
 	for i := 0; i < 5; i++ {
 		c := wire.NewClient(st.Dial(0), true)
@@ -64,10 +66,25 @@ func hangProbe(st *stack.Stack, victim *wire.Client) bool {
 			return false
 		}
 	}
+	cpu0 := processCPU()
 	victim.C.SetReadDeadline(time.Now().Add(10 * time.Second))
 	_, err := victim.R.Peek(1)
 	ne, ok := err.(net.Error)
-	return err != nil && ok && ne.Timeout()
+	if !(err != nil && ok && ne.Timeout()) {
+		return false
+	}
+	// a request that is merely slow (race-detector build, large values, many
+	// connections) keeps the process busy; one that hangs leaves it idle
+	return processCPU()-cpu0 < time.Second
+}
+
+// processCPU is the CPU time (user + system) this process has used so far.
+func processCPU() time.Duration {
+	var ru syscall.Rusage
+	if err := syscall.Getrusage(syscall.RUSAGE_SELF, &ru); err != nil {
+		return 0
+	}
+	return time.Duration(ru.Utime.Nano() + ru.Stime.Nano())
 }
 
 // undecidedOrHang is undecided unless the error is a client timeout that
